@@ -428,6 +428,9 @@ def _param_key(param: t.Any) -> t.Any:
     if isinstance(param, list):
         return tuple(map(_param_key, t.cast(t.List[t.Any], param)))  # e.g. the argument list of a ``Callable``
     args = t.get_args(param)
+    if t.get_origin(param) is t.Literal:
+        # (values which are equal without being the same type are different literals: ``Literal[1]``, ``Literal[True]``)
+        return (t.Literal, tuple((type(arg), arg) for arg in args))
     if len(args):
         return (t.get_origin(param), getattr(param, '__metadata__', None), tuple(map(_param_key, args)))
     return param
